@@ -460,6 +460,96 @@ def write_num_tie(ctx, binp, ncases):
     return len(nitems), bad
 
 
+ESC_ATOMS = ['"', "'", '&', '<', '>', 'a', 'b', ';', '#', 'é', ']', ']]>', 'amp;', 'lt;', 'quot;', 'apos;', '&amp;', '&lt;', '&#60;', '-', '_', 'x']
+
+ESC_SPECIAL = '"' + "'&<"
+
+
+def xml_attr(s):
+    return s.replace('&', '&amp;').replace('<', '&lt;').replace('"', '&quot;')
+
+
+def gen_escape_cases(rng, n):
+    """(id, [span texts], single_quote): adversarial strings for the `escape` correspondence"""
+    fixed = [('a&b', ['x & y < z > w " q \' ]]> e'], 0), ('q"u\'o"t\'e', ['""\'\'', '&amp;&lt;'], 1), ('q"u\'o"t\'e', ['<<<&&&', 'a&#60;b'], 0),
+             ('a&amp;b', ['&amp;amp;', '&quot;'], 1), ('<', ['<'], 0), ('"', ['"'], 0), ("'", ["'"], 1), ('&', ['&'], 1),
+             ('é"é', ['é<é&é'], 0), ('""""""', ['<<<<<<'], 0), ("'" * 6, ['&&&&&&'], 1)]
+    out = list(fixed)
+    while len(out) < n:
+        mk = lambda: ''.join(rng.choice(ESC_ATOMS) for _ in range(1 + rng.below(7)))
+        out.append((mk(), [mk() for _ in range(1 + rng.below(2))], rng.below(2)))
+    return out
+
+
+def escape_tie(ctx, binp, ncases):
+    """K `escape`: ids and span texts with quotes / & / < / > / entity look-alikes are written by the real writer (xmlwriter underneath);
+    the bytes that follow `<path id=Q` and the start tag of every leaf tspan are compared INSIDE Coq with Model/XmlEscape.v
+    (escape_attr / escape_text over the source-derived Gen/XmlEscape.v) applied to the id / span text the tree holds (from the dump).
+    The same evaluation runs the boolean round-trip checkers on every string (model-level search when a theorem breaks).
+    -> (number of compared strings, [(what, doc, wopts, detail)] disagreements, [(doc, wopts, detail)] model counterexamples) or None"""
+    cases = gen_escape_cases(ctx.rng, ncases)
+    docs, wos = [], []
+    for ident, texts, sq in cases:
+        spans = ''.join(('<tspan fill="red">%s</tspan>' if i % 2 else '%s') % t.replace('&', '&amp;').replace('<', '&lt;') for i, t in enumerate(texts))
+        docs.append('<svg %s width="100" height="100"><rect id="%s" width="5" height="5"/><text x="5" y="50" font-size="20">%s</text></svg>'
+                    % (NS, xml_attr(ident), spans))
+        wos.append(wopts_str(dict(pt=1, sq=sq, indent='none', aindent='none')) + ';full=1')
+    outs = ctx.rvh_batch(binp, 'c07-write', ["-	%s	%s" % (w, d) for w, d in zip(wos, docs)])
+    items, imap, glue = [], [], []
+    blist = lambda b: "[%s]" % "; ".join(str(x) for x in b)
+    for (ident, texts, sq), d, w, o in zip(cases, docs, wos, outs):
+        r = jload(o)
+        if 'error' in r:
+            continue            # the document itself was rejected (e.g. an id that is only white space)
+        if 'crash' in r or 'panic' in r or 'text' not in r:
+            glue.append(('crash', d, w, str({x: r[x] for x in r if x not in ('dump', 'skeleton')})[:300]))
+            continue
+        text = r['text'].encode('utf-8')
+        q = b"'" if sq else b'"'
+        paths = [n for n in r['dump']['root']['children'] if n['t'] == 'path']
+        pos = text.find(b'<path id=' + q)
+        if paths and paths[0]['id']:
+            v = paths[0]['id'].encode('utf-8')
+            if pos < 0:
+                glue.append(('locate', d, w, 'no `<path id=` in the written text'))
+            else:
+                rest = text[pos + 10:pos + 10 + 8 * len(v) + 16]
+                items.append("(0, %s, %s, %s)" % ('true' if sq else 'false', blist(v), blist(rest)))
+                imap.append(('attribute id', d, w, v, rest))
+                ctx.note_case("esc/a/%d/%s" % (sq, ident), nontrivial=any(c in ident for c in ESC_SPECIAL))
+        spans = []
+        for n in r['dump']['root']['children']:
+            if n['t'] == 'text':
+                for c in n['chunks']:
+                    tb = c['text'].encode('utf-8')
+                    spans += [tb[s['start']:s['end']] for s in c['spans']]
+        leaves = [m.end() for m in re.finditer(rb'<tspan font-family=[^>]*>', text)]
+        if len(leaves) != len(spans):
+            glue.append(('locate', d, w, '%d leaf tspans in the written text, %d spans in the tree' % (len(leaves), len(spans))))
+            continue
+        for v, at in zip(spans, leaves):
+            rest = text[at:at + 8 * len(v) + 16]
+            items.append("(1, false, %s, %s)" % (blist(v), blist(rest)))
+            imap.append(('span text', d, w, v, rest))
+            ctx.note_case("esc/t/%s" % v.decode('utf-8', 'replace'), nontrivial=any(c in v for c in b'&<'))
+    if not items:
+        return 0, glue, []
+    body = ("From Coq Require Import NArith List Bool.\nImport ListNotations.\nLocal Open Scope N_scope.\n"
+            "Definition cases : list (N * bool * list N * list N) := [\n%s\n].\n"
+            "Eval vm_compute in (bad_indices chk_written cases).\nEval vm_compute in (bad_indices chk_roundtrip cases).\n" % ";\n".join(items))
+    rc, out = ctx.coq_eval('k_escape', body, ['Gen.XmlEscape', 'Model.XmlEscape', 'Model.Corr'])
+    lists = re.findall(r"=\s*\[(.*?)\]\s*:\s*list", out, re.S) if rc == 0 else []
+    if len(lists) != 2:
+        ctx.log("model evaluation (escape) failed:\n" + out[-1500:])
+        return None
+    bl = [[int(re.sub(r"%\w+", "", x).strip().strip('()')) for x in l.split(';')] if l.strip() else [] for l in lists]
+    bad = glue + [(imap[b][0], imap[b][1], imap[b][2],
+                   "the tree holds %r, the writer wrote %r.." % (imap[b][3].decode('utf-8', 'replace'), imap[b][4][:len(imap[b][3]) + 24].decode('utf-8', 'replace')))
+                  for b in bl[0]]
+    cex = [(imap[b][1], imap[b][2], "%s %r" % (imap[b][0], imap[b][3].decode('utf-8', 'replace'))) for b in bl[1]]
+    return len(items), bad, cex
+
+
 def src_of(doc):
     """source text of a document, with the text of nested SVG images (base64 data URLs) appended"""
     import base64
@@ -481,7 +571,9 @@ def run(ctx):
     rng = ctx.rng
     quick = ctx.tier == 'quick'
     ctx.cov['trusted_base'] = vlib.BASE_TRUSTED + [
-        "xmlwriter (escaping, quoting, indentation), base64, Rust float formatting: outside the model; observed through roxmltree",
+        "xmlwriter quoting / indentation / element stack, base64, Rust float formatting: outside the model; observed through roxmltree "
+        "(xmlwriter's escaping IS modelled: Gen/XmlEscape.v is derived from its source in the cargo registry)",
+        "locating `<path id=` and the leaf `<tspan font-family=..>` start tags in the written text (Python) for the escape correspondence",
         "roxmltree as the independent XML reader of the oracle; the plain-decimal grammar of harness/src/c07.rs",
         "Model/Writer.v abstracts the early returns of has_xlink (same disjunction) and keeps only id / reference attributes",
     ]
@@ -490,7 +582,7 @@ def run(ctx):
     broken = ctx.translate()
     res = ctx.coq_props()
     proof_ok = res['ok'] and not broken
-    ctx.coq_build(['Model/Corr.v', 'Model/Writer.v', 'Model/WriteNum.v'])      # what the correspondence evaluations import
+    ctx.coq_build(['Model/Corr.v', 'Model/Writer.v', 'Model/WriteNum.v', 'Model/XmlEscape.v'])      # what the correspondence evaluations import
     if not quick and hasattr(ctx, 'coqchk') and res['ok']:
         if not ctx.coqchk():
             proof_ok = False
@@ -705,7 +797,23 @@ def run(ctx):
                           "clamp, integer bound) disagrees" % (v, tok, ncases[ci][0]),
                           dict(doc=ndocs[ci], wopts=wopts_str(dict(cp=ncases[ci][0])), op='c07-write', value=v, written=tok))
 
+    # ------------------------------------------------------------------ K: escape (xmlwriter layer)
+    er = escape_tie(ctx, binp, 60 if quick else 600)
+    esc_cex = []
+    if er is None:
+        ctx.violation("the escape correspondence could not be evaluated", dict(op='escape'), found_input=False)
+    else:
+        ctx.cov['escape_cases'] = er[0]
+        esc_cex = er[2]
+        for what, d, w, detail in er[1][:4]:
+            ctx.violation("escape: %s: %s; Model/XmlEscape.v (escaping derived from the xmlwriter source and writer.rs) disagrees" % (what, detail),
+                          dict(doc=d, wopts=w, op='c07-write', part='escape'))
+
     # ------------------------------------------------------------------ proof broke: model-level search
+    if not proof_ok and not ctx.violations and esc_cex:
+        d, w, detail = esc_cex[0]
+        ctx.violation("model counterexample: written as Model/XmlEscape.v (source-derived escaping) writes it, the %s is not well-formed or does not "
+                      "read back as itself" % detail, dict(doc=d, wopts=w, op='c07-write', part='escape', failed_files=res['failed'], broken_ties=broken))
     if not proof_ok and not ctx.violations:
         found = False
         its = []
